@@ -73,7 +73,7 @@ def build_shape(shape, dom, sym_numbers=False):
             dom += [off >= 1, off <= 31]
     bonds = {}
     ngb = [[] for _ in range(n)]
-    ctd = {frozenset((i, j)): s for i, j, s in shape.get('ct', ())}
+    ctd = {frozenset((c[0], c[1])): c[2] for c in shape.get('ct', ())}
     for k, (i, j) in enumerate(shape['bonds']):
         o = sym_int(f'o{k}', 1, 8, dom)
         dom.append(z3.Or(*[o.z == v for v in ORDERS]))
@@ -84,8 +84,9 @@ def build_shape(shape, dom, sym_numbers=False):
     mol = types.SimpleNamespace(
         _atoms=symrt.AList([(nums[i], atoms[i]) for i in range(n)]),
         _bonds=symrt.AList([(nums[i], symrt.AList([(nums[j], bonds[(i, j)]) for j in ngb[i]])) for i in range(n)]),
-        _stereo_cis_trans_terminals=symrt.AList([(nums[i], (nums[i], nums[j])) for i, j, s in shape.get('ct', ())] +
-                                                [(nums[j], (nums[i], nums[j])) for i, j, s in shape.get('ct', ())]),
+        # terminals of the double-bond chain: the bond's own atoms for an alkene, the chain ends for a cumulene (entry = (i, j, sign[, ti, tj]))
+        _stereo_cis_trans_terminals=symrt.AList([(nums[c[0]], (nums[c[3] if len(c) > 3 else c[0]], nums[c[4] if len(c) > 3 else c[1]])) for c in shape.get('ct', ())] +
+                                                [(nums[c[1]], (nums[c[3] if len(c) > 3 else c[0]], nums[c[4] if len(c) > 3 else c[1]])) for c in shape.get('ct', ())]),
         _cis_trans_count=len(shape.get('ct', ())))
     return mol, nums, atoms, ngb, bonds
 
@@ -157,8 +158,9 @@ def _round_trip_case(name, shape, sym_numbers=False, check_bytes=False):
             seen.add(i)
             for j in ngb[i]:
                 if j not in seen and bonds[(i, j)]._stereo is not None:
-                    ti, tj, s = next(x for x in shape['ct'] if {x[0], x[1]} == {i, j})
-                    exp_ct.append((nums[ti], nums[tj], s))
+                    c_ = next(x for x in shape['ct'] if {x[0], x[1]} == {i, j})
+                    ti, tj = (c_[3], c_[4]) if len(c_) > 3 else (c_[0], c_[1])
+                    exp_ct.append((nums[ti], nums[tj], c_[2]))
         c.append(z3.BoolVal(len(ct) == len(exp_ct)))
         for (cn, cm, cs), (en, em, es) in zip(ct, exp_ct):
             c += [bv(cn) == bv(en), bv(cm) == bv(em), z3.BoolVal(cs is es)]
@@ -202,8 +204,8 @@ def replay_round_trip(shape, sym_numbers, model):
         else:
             cb[(i, j)] = types.SimpleNamespace(_order=conc(b._order), _stereo=b._stereo)
     cmol = types.SimpleNamespace(_atoms={cn[i]: cat[i] for i in range(n)}, _bonds={cn[i]: {cn[j]: cb[(i, j)] for j in ngb[i]} for i in range(n)},
-                                 _stereo_cis_trans_terminals={**{cn[i]: (cn[i], cn[j]) for i, j, s_ in shape.get('ct', ())},
-                                                              **{cn[j]: (cn[i], cn[j]) for i, j, s_ in shape.get('ct', ())}},
+                                 _stereo_cis_trans_terminals={**{cn[c[0]]: (cn[c[3] if len(c) > 3 else c[0]], cn[c[4] if len(c) > 3 else c[1]]) for c in shape.get('ct', ())},
+                                                              **{cn[c[1]]: (cn[c[3] if len(c) > 3 else c[0]], cn[c[4] if len(c) > 3 else c[1]]) for c in shape.get('ct', ())}},
                                  _cis_trans_count=len(shape.get('ct', ())))
     try:
         out = gp['pack'](cmol)
@@ -235,6 +237,8 @@ def _shapes():
     out.append(('3ring', dict(n=3, bonds=[(0, 1), (1, 2), (0, 2)], attrs=_attr_cycle(3, 1), numbers=[7, 4095, 256], **C), False, True))
     out.append(('4chain-cis-trans', dict(n=4, bonds=[(0, 1), (1, 2), (2, 3)], attrs=_attr_cycle(4, 2), ct=[(1, 2, True)], numbers=[3, 1, 2, 9], **C), False, True))
     out.append(('4chain-cis-trans-false', dict(n=4, bonds=[(0, 1), (1, 2), (2, 3)], attrs=_attr_cycle(4, 3), ct=[(1, 2, False)], numbers=[30, 10, 20, 90], **C), False, True))
+    out.append(('6chain-cumulene-cis-trans', dict(n=6, bonds=[(0, 1), (1, 2), (2, 3), (3, 4), (4, 5)], attrs=_attr_cycle(6, 1), ct=[(2, 3, True, 1, 4)],
+                                                  numbers=[11, 12, 13, 14, 15, 16], **C), False, True))
     out.append(('allene-3chain', dict(n=3, bonds=[(0, 1), (1, 2)], attrs=[(None, None, 'sym'), (None, True, 'sym'), (None, None, 'sym')], numbers=[1, 2, 3], **C), False, True))
     out.append(('allene-3chain-false', dict(n=3, bonds=[(0, 1), (1, 2)], attrs=[(None, None, 'sym'), (None, False, 'sym'), (None, None, 'sym')], numbers=[1, 2, 3], **C), False, True))
     # stars / chains that put 1..9 (and 16, 17) bonds into the 3-bit order stream: every tail residue of the period-8 packer
